@@ -601,6 +601,120 @@ def run_case(R, tp, mp, case, label, check=True):
     return obs, fs
 
 
+# ------------------------------------------------------------------ real tags: LogixDriver against the Logix target
+def run_real_case(R, tp, rng, seed):
+    """LogixDriver(init_tags=True) with real read()/write() of real tags against the WHOLE reference target
+    (bin/modelrun_target: core + Logix handler, a generated controller project).  The model co-process
+    embeds the core handler only, so this stage has no model side: it evaluates the oracle on the
+    implementation (O1-O5) over histories that contain genuine tag services and the tag upload in open()."""
+    import scenarios as S
+    import refview as RV
+    import pycomm3.cip_driver as cd
+    from pycomm3 import LogixDriver
+    sc = S.gen_scenario(rng, n_tags=rng.randrange(3, 12))
+    policy = rng.choice(list(POLICIES))
+    cfg = dict(POLICIES[policy])
+    flt = {}
+    for _f in range(rng.choice([0, 1, 1, 1, 2])):
+        key = rng.choice(["connect", "send", "send_after", "recv", "drop_reply", "vanish", "close"])
+        k = rng.randrange(0, 3 if key in ("connect", "close") else 70)
+        if key in ("drop_reply", "vanish"):
+            flt.setdefault(key, [])
+            if k not in flt[key]:
+                flt[key].append(k)
+        else:
+            flt.setdefault(key, {})[k] = rng.choice([0, 0, 1])
+    flt = norm_faults(flt)
+    reads = S.gen_read_requests(rng, sc, 6)
+    writes = [(q, RV.to_python(v)) for q, v in S.gen_write_requests(rng, sc, 4)]
+    pool = [("open",), ("close",), ("gc", "echo"), ("gu", "echo", False)]
+    pool += [("read", tuple(reads[:k])) for k in (1, 2, 4) if len(reads) >= k]
+    pool += [("write", tuple(writes[:k])) for k in (1, 2) if len(writes) >= k]
+    pool += [("with", [pool[rng.randrange(2, len(pool))]], rng.random() < 0.3) for _ in range(2)]
+    ops = [rng.choice(pool) for _ in range(rng.randrange(2, 8))]
+    if rng.random() < 0.8 and ops[0][0] != "with":
+        ops[0] = ("open",)
+    case = {"logix": True, "path": "10.0.0.1", "policy": policy, "cfg": cfg, "inject": [], "faults": flt, "ops": ops, "seed": seed,
+            "real_tags": True}
+    tp.reset()
+    tp.lines(sc.cfg_lines())
+    tp.lines(sc.lines())
+    for k, v in cfg.items():
+        tp.ask(f"cfg {k} {T._tok(v)}")
+    rs = rand_stream(seed)
+    obs = []
+    with mock.patch.object(cd, "urandom", lambda n: next(rs)):
+        drv = LogixDriver(case["path"])
+        fs = attach(drv, tp, impl_faults(flt))
+
+        def do(o):
+            try:
+                if o[0] == "open":
+                    return ("bool", 1 if drv.open() else 0)
+                if o[0] == "close":
+                    drv.close()
+                    return ("none",)
+                if o[0] == "gc":
+                    return ("tag", 1 if drv.generic_message(**REQS[o[1]][0]) else 0)
+                if o[0] == "gu":
+                    return ("tag", 1 if drv.generic_message(connected=False, route_path=False, **REQS[o[1]][0]) else 0)
+                if o[0] == "read":
+                    drv.read(*o[1])
+                    return ("tags",)
+                if o[0] == "write":
+                    drv.write(*o[1])
+                    return ("tags",)
+                raise ValueError(o)
+            except Exception as e:  # noqa: BLE001
+                return exc_code(e)
+
+        for o in ops:
+            ev0, fired0 = len(fs.events), fs.fired
+            if o[0] != "with":
+                out = do(o)
+                s = snapshot(drv, tp, fs, ev0)
+                s.update(out=list(out), op=o[0], fired=fs.fired - fired0)
+                obs.append(s)
+                continue
+            try:
+                with drv:
+                    for so in o[1]:
+                        out = do(so)
+                        s = snapshot(drv, tp, fs, ev0)
+                        s.update(out=list(out), op=so[0], fired=fs.fired - fired0, inner=True)
+                        obs.append(s)
+                        ev0, fired0 = len(fs.events), fs.fired
+                        if out[0] == "err":
+                            raise _Reraise(out)
+                    if o[2]:
+                        raise BodyError("body")
+                final = ("none",)
+            except _Reraise as e:
+                final = e.out
+            except Exception as e:  # noqa: BLE001
+                final = exc_code(e)
+            s = snapshot(drv, tp, fs, ev0)
+            s.update(out=list(final), op="with", fired=fs.fired - fired0)
+            obs.append(s)
+    def brief(o):
+        if o[0] in ("read", "write"):
+            return [o[0], len(o[1])]
+        if o[0] == "with":
+            return ["with", [brief(x) for x in o[1]], o[2]]
+        return list(o)
+    brief_ops = [brief(o) for o in ops]
+    case["ops"] = brief_ops
+    case["scenario_seed"] = seed
+    oracle(R, case, obs, fs, tp.log(), "real-tags")
+    R.case(("real", seed, policy, json.dumps(flt, sort_keys=True, default=list), repr(brief_ops)), any(ev[0] == "f" for o in obs for ev in o["events"]))
+    R.count("source", "real-tags")
+    R.count("real_tags_frames", min(len(fs.sent), 200) // 20 * 20)
+    for o in obs:
+        R.count("outcome_real", o["op"] + ":" + ":".join(str(x) for x in canon_out(o["out"])))
+    if fs.stale:
+        R.count("stale_reply_runs", "real")
+
+
 # ------------------------------------------------------------------ generators
 def alphabet(logix):
     a = [("open",), ("close",), ("gc", "echo"), ("gu", "echo", False), ("gc", "noobj"),
@@ -756,6 +870,21 @@ def run(R, escalate=False):
             case = mk_case(logix, pol, ops, faults=norm_faults(flt), seed=seed, path=rng.choice(paths), inject=inject, extra_cfg=extra)
             run_case(R, tp, mp, case, "random")
             R.count("source", "random")
+        # real tags (implementation-side oracle only), when the Logix half of the target is built
+        if os.path.exists(os.path.join(fw.VERIF, "bin", "modelrun_target")):
+            tpl = None
+            try:
+                tpl = T.TargetProc("target")
+                for _ in range(4000 if thorough else 400):
+                    seed += 1
+                    run_real_case(R, tpl, rng, seed)
+            except T.TargetError as e:          # the Logix half is another vertical's work in progress
+                R.notes.append(f"real-tags stage stopped: {e!r}"[:300])
+            finally:
+                if tpl is not None:
+                    tpl.close()
+        else:
+            R.notes.append("real-tags stage skipped: bin/modelrun_target is not built")
     finally:
         tp.close()
         mp.close()
